@@ -279,4 +279,36 @@ theorem Safe.run (acts : List Act) (s : S) (hs : Safe s) (hinv : Inv s)
       · exact hs.step _ _ _ e hinv h1.1 h2.1
     exact ih _ hs' (hinv.stepD s a) h1.2 h2.2
 
+/-! ## a finished send has put its tick into a mailbox -/
+
+def DoneSent (s : S) : Prop := ∀ i, s.senders i = .done → i ∈ s.sent
+
+theorem DoneSent.init (tau : Nat) : DoneSent (init tau) := by intro i; simp [Lifecycle.init]
+
+theorem DoneSent.step (s s' : S) (a : Act) (h : step s a = some s') (hd : DoneSent s) : DoneSent s' := by
+  unfold DoneSent at hd ⊢
+  cases a
+  all_goals destruct_step h
+  all_goals (intro k hk; have hk' := hd k)
+  all_goals (first
+    | (simp_all [upd_apply]; done)
+    | (simp only [upd_apply, release_senders, release_sent] at hk ⊢; split at hk <;> simp_all; done)
+    | (simp only [upd_apply, release_senders, release_sent] at hk ⊢; simp_all; done))
+
+theorem DoneSent.run (acts : List Act) (s : S) (hd : DoneSent s) : DoneSent (run s acts) := by
+  induction acts generalizing s with
+  | nil => exact hd
+  | cons a as ih =>
+    refine ih _ ?_
+    rcases stepD_eq s a with e | e
+    · rw [e]; exact hd
+    · exact hd.step _ _ _ e
+
+/-- `Acct` as a permutation -/
+theorem Acct.perm (s : S) (h : Acct s) : List.Perm s.sent (s.log ++ s.inMem ++ s.lost) := by
+  rw [List.perm_iff_count]
+  intro x
+  simp only [List.count_append]
+  exact h x
+
 end Lifecycle
